@@ -100,6 +100,21 @@ func (fc *FnCtx) envAtLoop(li *loopInfo, st *State, over map[*ssa.Phi]Val) *Env 
 			}
 			return fc.val(phi), true
 		}
+		// hidden loop variables (rangeindex, rangeint.iter) of the enclosing loops
+		for _, ol := range fc.loops {
+			if ol == li || !ol.body[li.header] {
+				continue
+			}
+			for _, in := range ol.header.Instrs {
+				phi, ok := in.(*ssa.Phi)
+				if !ok {
+					break
+				}
+				if phi.Comment == name && (name == "rangeindex" || name == "rangeint.iter") {
+					return fc.val(phi), true
+				}
+			}
+		}
 		return fc.lookupVar(name, li.header, st)
 	}
 	return env
@@ -618,6 +633,15 @@ func (fc *FnCtx) evalCall(x *ast.CallExpr, env *Env) Val {
 			ref = v.Sl.Base
 		}
 		return boolV(app(">=", app("root", ref), env.old.NA))
+	case "allocated":
+		// allocated(x): the object x refers to exists in the state the expression is evaluated in
+		// (so it differs from every object allocated later)
+		v := arg(0)
+		ref := v.S
+		if v.K == KSlice {
+			ref = v.Sl.Base
+		}
+		return boolV(and(app("<", app("root", ref), env.state().NA), not(eq(ref, "0"))))
 	case "forallStr":
 		id := x.Args[0].(*ast.Ident)
 		bv := sym("qs_" + id.Name + fmt.Sprintf("_%d", env.depth))
@@ -881,7 +905,11 @@ func (fc *FnCtx) evalCall(x *ast.CallExpr, env *Env) Val {
 			panic(specErr(fn.Name + ": the type must be a string literal"))
 		}
 		ts, _ := strconv.Unquote(lit.Value)
-		tv, err := types.Eval(fc.eng.fset, fc.pkg.Types, token.NoPos, ts)
+		// evaluated at the function under verification, so that its file's imports are in scope
+		tv, err := types.Eval(fc.eng.fset, fc.pkg.Types, fc.root().fn.Pos(), ts)
+		if err != nil {
+			tv, err = types.Eval(fc.eng.fset, fc.pkg.Types, token.NoPos, ts)
+		}
 		if err != nil {
 			panic(specErr(fn.Name + ": " + err.Error()))
 		}
